@@ -82,6 +82,8 @@ package dag
 //@   pure wrapper
 //@   requires repo != nil && def.OperationUnmarshaler != nil
 //@   requires [wrapper-non-nil] forall e *Entity :: { wrapper(e) } e != nil ==> wrapper(e) != nil
+//@   modifies repository.refs
+//@   opt trusted_frame
 //@   let refs0 = old(repository.refs)
 //@   let l = refs0[localRef]
 //@   let r = refs0[remoteRef]
@@ -98,3 +100,13 @@ package dag
 //@   loop 2
 //@     invariant forall k int :: { remoteCommits[k] } 0 <= k && k <= rangeindex ==> remoteCommits[k] != localCommit
 //@     invariant !fastForwardPossible
+
+// The goroutine of MergeAll: exactly one result per remote ref, whatever the outcome of each merge (C02).
+//@ func MergeAll$1
+//@   props C02
+//@   pure wrapper
+//@   requires repo != nil && def.OperationUnmarshaler != nil
+//@   requires [wrapper-non-nil] forall e *Entity :: { wrapper(e) } e != nil ==> wrapper(e) != nil
+//@   check [one-result-per-remote] len(remoteRefs) > 0 ==> sentcount(out) == len(remoteRefs)
+//@   loop 1
+//@     invariant sentcount(out) == rangeindex + 1
